@@ -2,6 +2,7 @@ import SJ.Props.C14
 import SJ.Props.TypedDepth
 import SJ.Props.TypedUtf8
 import SJ.Props.StreamTypedDepth
+import SJ.Props.C14Fallbacks
 #print axioms SJ.Props.C14.c14_again_once
 #print axioms SJ.Props.C14.c14_depth_bounded
 #print axioms SJ.Props.C14.c14_limit_hit
@@ -23,3 +24,10 @@ import SJ.Props.StreamTypedDepth
 #print axioms SJ.Props.StreamTypedDepth.c14_typed_depth_restored
 #print axioms SJ.Props.StreamTypedDepth.c14_typed_depth_restored_ok
 #print axioms SJ.Props.StreamTypedDepth.c14_typed_stream_depth_restored
+#print axioms SJ.Props.C14Fallbacks.c14_no_fallback
+#print axioms SJ.Props.C14Fallbacks.c14_no_fallback_dispatched
+#print axioms SJ.Props.C14Fallbacks.c14_closeArr_live
+#print axioms SJ.Props.C14Fallbacks.c14_closeObj_live
+#print axioms SJ.Props.C14Fallbacks.c14_keyEnd_live
+#print axioms SJ.Props.C14Fallbacks.c14_step_live
+#print axioms SJ.Props.C14Fallbacks.c14_numValue_live
